@@ -124,4 +124,17 @@ func c16Round3Facts(l *lean) {
 		}
 	}
 	l.def("seedDraw", "List String", leanStrList(draw), draw)
+
+	// ---- wave 9: api.go GetPresentations, every top-level statement of the body (it forwards Server.Get's map, seed and
+	// timestamp unchanged; anything between the call and the return shows here)
+	_, api := parseFile("discovery/api/server/api.go")
+	var gp []string
+	if fd := funcDecl(api, "GetPresentations"); fd != nil {
+		for _, st := range fd.Body.List {
+			gp = append(gp, strings.Join(strings.Fields(c16ExprSrc(st)), " "))
+		}
+	} else {
+		gp = []string{"?missing"}
+	}
+	l.def("getPresentationsBody", "List String", leanStrList(gp), gp)
 }
